@@ -210,6 +210,7 @@ type COp struct {
 	Keys   []int // view: keys read from one snapshot
 	Txn    *CTxn
 	Yields int    // serve: yields inside the handler
+	Via    bool   // handle/update: through Router.NewRoute + HandleRoute/UpdateRoute instead of Handle/Update
 	Inner  string // serve_write: the write the handler performs on the router (handle update delete), as in the README's Action example
 }
 
@@ -226,6 +227,9 @@ type CTxn struct {
 func (o COp) String() string {
 	switch o.Kind {
 	case "handle", "update":
+		if o.Via {
+			return fmt.Sprintf("%sroute(k%d,tag=%d)", o.Kind, o.Key, o.Tag)
+		}
 		return fmt.Sprintf("%s(k%d,tag=%d)", o.Kind, o.Key, o.Tag)
 	case "delete", "has", "route", "iterroutes":
 		return fmt.Sprintf("%s(k%d)", o.Kind, o.Key)
@@ -263,7 +267,7 @@ func (o COut) String() string {
 }
 
 func genWriteCOp(src sim.Source, nk int, tag int) COp {
-	op := COp{Key: src.Intn("key", nk), Tag: tag}
+	op := COp{Key: src.Intn("key", nk), Tag: tag, Via: src.Intn("viaroute", 4) == 0}
 	switch k := src.Intn("wkind", 10); {
 	case k < 4:
 		op.Kind = "handle"
@@ -368,10 +372,21 @@ func (cw *concWorld) execWrite(wr world.Writer, op COp) COut {
 	var rt *fox.Route
 	var err error
 	switch op.Kind {
-	case "handle":
-		rt, err = wr.Handle(k.Method, k.Pat.Raw, world.Handler(op.Tag), cw.routeOpts(op.Tag)...)
-	case "update":
-		rt, err = wr.Update(k.Method, k.Pat.Raw, world.Handler(op.Tag), cw.routeOpts(op.Tag)...)
+	case "handle", "update":
+		if op.Via {
+			// the two-step form: build the route without any lock, then register it
+			if rt, err = cw.w.R.NewRoute(k.Pat.Raw, world.Handler(op.Tag), cw.routeOpts(op.Tag)...); err == nil {
+				if op.Kind == "handle" {
+					err = wr.HandleRoute(k.Method, rt)
+				} else {
+					err = wr.UpdateRoute(k.Method, rt)
+				}
+			}
+		} else if op.Kind == "handle" {
+			rt, err = wr.Handle(k.Method, k.Pat.Raw, world.Handler(op.Tag), cw.routeOpts(op.Tag)...)
+		} else {
+			rt, err = wr.Update(k.Method, k.Pat.Raw, world.Handler(op.Tag), cw.routeOpts(op.Tag)...)
+		}
 	case "delete":
 		rt, err = wr.Delete(k.Method, k.Pat.Raw)
 	}
